@@ -15,7 +15,7 @@ def run(tier, seed):
     lay, tp, st = tables(tier, w)
     mc = [tlc_mc("Dispatch.tla", "MC_Dispatch.cfg", workers=2, name="c14_mc", coverage=False)]
     tf = f"{w}/trace.ndjson"
-    r1 = vh(["dispatch", "--layouts", lay, "--templates", tp, "--reps", 18 if quick else 200, "--seed", seed, "--out-trace", tf], name="c14")
+    r1 = vh(["dispatch", "--layouts", lay, "--templates", tp, "--reps", 20 if quick else 200, "--seed", seed, "--out-trace", tf], name="c14")
     v.add_report(r1, "three call paths")
     validated, ts = validate_trace(v, "Trace_Dispatch.tla", "Trace_Dispatch.cfg", tf, splitter="Case", max_rounds=12)
     nviol, _ = v.finish()
